@@ -23,6 +23,7 @@ package main
 import (
 	"bufio"
 	"bytes"
+	"crypto/sha256"
 	"encoding/json"
 	"fmt"
 	"math/rand"
@@ -250,6 +251,117 @@ func worker(from int, progress string, stripe, stripes int) {
 	f.Close()
 }
 
+// ---- large inputs: sizes around typical internal limits (buffer sizes, "bomb guards", window sizes), compressible and
+// incompressible, round trip plus two damages; evaluated one at a time in their own child process
+
+type bigCase struct {
+	Alg   int
+	Size  int
+	Comp  bool   // compressible
+	Kind  string // none | bitflip | truncate
+	Index int
+}
+
+var bigSizes = []int{64 << 10, 1 << 20, 4 << 20, 8<<20 - 1, 8 << 20, 8<<20 + 1, 16 << 20, 16<<20 + 1, 32 << 20}
+
+func bigCases(seed int64, thorough bool) []bigCase {
+	rng := rand.New(rand.NewSource(seed*977 + 5))
+	var out []bigCase
+	for a := range algs {
+		type in struct {
+			size int
+			comp bool
+		}
+		var ins []in
+		if thorough {
+			for _, sz := range bigSizes {
+				ins = append(ins, in{sz, true}, in{sz, false})
+			}
+		} else {
+			// always one input above 16 MiB, the two sizes around 8 MiB, and one more
+			ins = append(ins, in{[]int{16<<20 + 1, 32 << 20}[rng.Intn(2)], rng.Intn(2) == 0}, in{8<<20 + 1, rng.Intn(2) == 0},
+				in{8 << 20, rng.Intn(2) == 0}, in{bigSizes[rng.Intn(3)], rng.Intn(2) == 0})
+		}
+		for j, x := range ins {
+			out = append(out, bigCase{Alg: a, Size: x.size, Comp: x.comp, Kind: "none"})
+			if thorough || j == 1 {
+				out = append(out, bigCase{Alg: a, Size: x.size, Comp: x.comp, Kind: "bitflip"}, bigCase{Alg: a, Size: x.size, Comp: x.comp, Kind: "truncate"})
+			}
+		}
+	}
+	for i := range out {
+		out[i].Index = i
+	}
+	return out
+}
+
+func bigInput(seed int64, size int, comp bool) []byte {
+	rng := rand.New(rand.NewSource(seed + int64(size)*3 + 1))
+	b := make([]byte, size)
+	if !comp {
+		rng.Read(b)
+		return b
+	}
+	words := [][]byte{[]byte("hydraide "), []byte("swamp "), []byte("treasure "), []byte("0123456789"), {0, 0, 0, 0, 0, 0, 0, 0}}
+	for off := 0; off < size; {
+		off += copy(b[off:], words[rng.Intn(len(words))])
+	}
+	return b
+}
+
+func bigWorker(from int, progress string) {
+	seed, _ := strconv.ParseInt(os.Getenv("VERIF_SEED"), 10, 64)
+	cs := bigCases(seed, os.Getenv("VERIF_TIER") == "thorough")
+	f, err := os.OpenFile(progress, os.O_APPEND|os.O_CREATE|os.O_WRONLY, 0o644)
+	if err != nil {
+		panic(err)
+	}
+	defer f.Close()
+	for i := from; i < len(cs); i++ {
+		c := cs[i]
+		fmt.Fprintf(f, "{\"begin\":%d}\n", i)
+		in := bigInput(seed, c.Size, c.Comp)
+		outcome, damaged, compLen := "err", false, 0
+		func() {
+			defer func() {
+				if r := recover(); r != nil {
+					outcome = "panic"
+				}
+			}()
+			cp := compressor.New(algs[c.Alg].t)
+			comp, err := cp.Compress(in)
+			if err != nil {
+				outcome = "compress-error"
+				return
+			}
+			compLen = len(comp)
+			switch c.Kind {
+			case "bitflip":
+				comp[len(comp)/2] ^= 0x10
+				damaged = true
+			case "truncate":
+				comp = comp[:len(comp)/2]
+				damaged = true
+			}
+			out, err := cp.Decompress(comp)
+			switch {
+			case err != nil:
+				outcome = "err"
+			case len(out) == len(in) && sha256.Sum256(out) == sha256.Sum256(in):
+				outcome = "same"
+			case len(out) == 0:
+				outcome = "empty"
+			case len(out) < len(in) && bytes.Equal(out, in[:len(out)]):
+				outcome = "prefix"
+			default:
+				outcome = "different"
+			}
+		}()
+		b, _ := json.Marshal(map[string]any{"i": i, "outcome": outcome, "damaged": damaged, "comp_len": compLen})
+		f.Write(append(b, '\n'))
+	}
+}
+
 type class struct {
 	Alg      string `json:"alg"`
 	Kind     string `json:"kind"`
@@ -268,6 +380,11 @@ func main() {
 		stripe, _ := strconv.Atoi(os.Args[4])
 		stripes, _ := strconv.Atoi(os.Args[5])
 		worker(from, os.Args[3], stripe, stripes)
+		return
+	}
+	if len(os.Args) >= 4 && os.Args[1] == "bigworker" {
+		from, _ := strconv.Atoi(os.Args[2])
+		bigWorker(from, os.Args[3])
 		return
 	}
 	if len(os.Args) < 4 || os.Args[1] != "run" {
@@ -447,6 +564,78 @@ func main() {
 			nontrivial[fmt.Sprintf("%d|%d|%s|%d|%d|%d", k.Alg, k.Input, k.Kind, k.Pos, k.Len, k.Val)] = true
 		}
 	}
+	// the large inputs, one child at a time (a child that dies is restarted behind the case it was on)
+	bcs := bigCases(seed, thorough)
+	bout := make([]string, len(bcs))
+	bdam := make([]bool, len(bcs))
+	bcomp := make([]int, len(bcs))
+	bprog := os.Args[2] + ".progress-big"
+	for done := 0; done < len(bcs); {
+		os.Remove(bprog)
+		cmd := exec.Command(os.Args[0], "bigworker", strconv.Itoa(done), bprog)
+		cmd.Env = os.Environ()
+		if err := cmd.Start(); err != nil {
+			panic(err)
+		}
+		waitCh := make(chan error, 1)
+		go func() { waitCh <- cmd.Wait() }()
+		timedOut := false
+		select {
+		case <-waitCh:
+		case <-time.After(30 * time.Minute):
+			timedOut = true
+			cmd.Process.Kill()
+			<-waitCh
+		}
+		begun := -1
+		if pf, err := os.Open(bprog); err == nil {
+			sc := bufio.NewScanner(pf)
+			for sc.Scan() {
+				var m map[string]any
+				if json.Unmarshal(sc.Bytes(), &m) != nil {
+					continue
+				}
+				if b, ok := m["begin"]; ok {
+					begun = int(b.(float64))
+					continue
+				}
+				i := int(m["i"].(float64))
+				bout[i], bdam[i], bcomp[i] = m["outcome"].(string), m["damaged"].(bool), int(m["comp_len"].(float64))
+				if i+1 > done {
+					done = i + 1
+				}
+			}
+			pf.Close()
+		}
+		os.Remove(bprog)
+		if done < len(bcs) {
+			deaths++
+			if begun == done || begun == -1 {
+				bout[done] = "died"
+				if timedOut {
+					bout[done] = "hung"
+				}
+				bdam[done] = bcs[done].Kind != "none"
+				done++
+			}
+		}
+	}
+	bigBytes := 0
+	for i, c := range bcs {
+		key := fmt.Sprintf("%s|%s|%v|%v|%s", algs[c.Alg].name, c.Kind, bdam[i], false, bout[i])
+		cl := classes[key]
+		if cl == nil {
+			cl = &class{Alg: algs[c.Alg].name, Kind: c.Kind, Damaged: bdam[i], Outcome: bout[i],
+				Example: kase{Alg: c.Alg, Input: 1000 + i, Kind: c.Kind, Pos: bcomp[i] / 2}, InputLen: c.Size, CompLen: bcomp[i]}
+			classes[key] = cl
+			order = append(order, key)
+		}
+		cl.Count++
+		bigBytes += c.Size
+		if bdam[i] || c.Size > 0 {
+			nontrivial[fmt.Sprintf("big|%d|%d|%v|%s", c.Alg, c.Size, c.Comp, c.Kind)] = true
+		}
+	}
 	f, err := os.Create(os.Args[2])
 	if err != nil {
 		panic(err)
@@ -464,7 +653,7 @@ func main() {
 			}
 		}
 	}
-	sum, _ := json.Marshal(map[string]any{"cases": len(cs), "inputs": len(ins), "classes": len(order), "worker_deaths": deaths, "slow_cases_retried": retried,
+	sum, _ := json.Marshal(map[string]any{"cases": len(cs) + len(bcs), "large_input_cases": len(bcs), "large_input_bytes": bigBytes, "inputs": len(ins), "classes": len(order), "worker_deaths": deaths, "slow_cases_retried": retried,
 		"distinct_damaged": len(nontrivial), "compress_failed": compressFailed})
 	os.WriteFile(os.Args[3], sum, 0o644)
 }
